@@ -131,6 +131,13 @@ CHECKS = {
         note="Valid base calls are constructed from the descriptor; binding errors are recognised by message origin; defaults of virtual parameters are documentation only.",
         ref="DESIGN.md section 4, C17",
     ),
+    "C20": dict(
+        level="fault_enumeration",
+        technique="property-based testing with fault and schedule enumeration: Hypothesis-generated copy histories with sys.settrace line-fault injection, and a deterministic cooperative thread scheduler enumerating preemption schedules; oracle = copyreg.dispatch_table vs pristine snapshot",
+        text="copyreg.dispatch_table is compared with a pristine snapshot (optionally containing a user-registered module reducer) after every operation of Hypothesis-generated copy histories (constructors with mutable defaults, helpers, deep copies nested to depth 3, resets, failing calls), after aborting each operation at executed library lines (sampled in quick, every line in thorough), and after concurrent scenarios of 2-3 threads deep-copying module-bearing values under a harness-owned scheduler: every single-preemption schedule over utils/mutation.py + methods/core.py, two-preemption schedules over the copy-protection lines (a fifth in quick, all in thorough, plus both files in thorough) and Hypothesis-drawn schedules; every thread's copy must succeed and equal its source.",
+        note="Interleavings at line granularity under a serialising scheduler with cooperative locks (module-global RLock rebinding); aborts inside the copy-protection bookkeeping itself are recorded open known findings.",
+        ref="DESIGN.md section 4, C20",
+    ),
 }
 
 NOT_YET = "check not built yet in this revision (see DESIGN.md section 9 for the order); nothing is claimed"
